@@ -1866,7 +1866,8 @@ def SIS_homogeneous_meanfield_from_graph(G, tau, gamma,
         raise EoN.EoNError("cannot define both initial_infecteds and rho")
     kave = G.size()*2.0/G.order()
     if initial_infecteds is not None:
-        I0 = len(initial_infecteds)
+        status = _initialize_node_status_(G, initial_infecteds)
+        I0 = Counter(status.values())['I'] #a node listed twice counts once
     elif rho is not None:
         I0 = rho*G.order()
     else:
@@ -1920,9 +1921,10 @@ def SIR_homogeneous_meanfield_from_graph(G, tau, gamma, initial_infecteds=None,
         raise EoN.EoNError("cannot define both initial_recovereds and rho")
     kave = G.size()*2.0/G.order()
     if initial_infecteds is not None:
-        I0 = len(initial_infecteds)
         if initial_recovereds is None:
             initial_recovereds = []
+        status = _initialize_node_status_(G, initial_infecteds, initial_recovereds)
+        I0 = Counter(status.values())['I'] #a node listed twice counts once
     elif rho is not None:
         I0 = rho*G.order()
     else:
@@ -1930,7 +1932,7 @@ def SIR_homogeneous_meanfield_from_graph(G, tau, gamma, initial_infecteds=None,
     if initial_recovereds is None:
         R0 = 0
     else:
-        R0 = len(initial_recovereds)
+        R0 = len(set(initial_recovereds))
         
     S0 = G.order()-I0 - R0
     return SIR_homogeneous_meanfield(S0, I0, R0, kave, tau, gamma, tmin=tmin, tmax=tmax, 
@@ -2206,7 +2208,7 @@ def SIS_homogeneous_pairwise_from_graph(G, tau, gamma, initial_infecteds=None,
 
     if initial_infecteds is not None:
         status = _initialize_node_status_(G, initial_infecteds)
-        I0= len(initial_infecteds)
+        I0= Counter(status.values())['I'] #a node listed twice counts once
         S0 = N-I0
         SS0=0
         II0=0
@@ -2307,8 +2309,9 @@ def SIR_homogeneous_pairwise_from_graph(G, tau, gamma, initial_infecteds=None,
         if initial_recovereds is None:
             initial_recovereds = []
         status = _initialize_node_status_(G, initial_infecteds, initial_recovereds)
-        I0 = len(initial_infecteds)
-        R0 = len(initial_recovereds)
+        C = Counter(status.values()) #a node listed twice counts once
+        I0 = C['I']
+        R0 = C['R']
         S0 = N-I0-R0
         SS0 = 0
         SI0 = 0
